@@ -12,6 +12,8 @@ the self-test next to the sub-agents' hand-written ones).
   npfunc     `x.swapaxes(a, b)` / `x.sum(..)` / `x.squeeze(..)` -> np.<name>(x, ..)
   lastkw     last positional argument of a call to a package function passed
              by keyword (see LastKw)
+  argtemp    `x = f(g(a), b)` -> `_arg1 = g(a); x = f(_arg1, b)`
+  comploop   `xs = [E for v in IT]` -> `xs = []; for v in IT: xs.append(E)`
   kwreverse  keyword arguments of a call in reverse order when every keyword
              value is a name / constant / attribute (no evaluation-order
              effect) and there is no **kwargs in the call
@@ -216,6 +218,101 @@ class LastKw(ast.NodeTransformer):
         return c
 
 
+class _StmtRewriter(ast.NodeTransformer):
+    """base: rewrite statement lists of function bodies"""
+
+    def __init__(self):
+        self.n = 0
+        self.k = 0
+
+    def fresh(self, stem):
+        self.k += 1
+        return f"_{stem}{self.k}"
+
+    def rewrite(self, st, fn):
+        return [st]
+
+    def visit_FunctionDef(self, fn):
+        self.generic_visit(fn)
+        self._fn = fn
+
+        def fix(body):
+            out = []
+            for st in body:
+                for fld in ("body", "orelse", "finalbody"):
+                    sub = getattr(st, fld, None)
+                    if isinstance(sub, list) and sub and not isinstance(
+                            st, (ast.FunctionDef, ast.ClassDef)):
+                        setattr(st, fld, fix(sub))
+                if isinstance(st, ast.Try):
+                    for h in st.handlers:
+                        h.body = fix(h.body)
+                out.extend(self.rewrite(st, fn))
+            return out
+        fn.body = fix(fn.body)
+        return fn
+
+
+class ArgTemp(_StmtRewriter):
+    """`x = f(g(a), b)` -> `_arg1 = g(a); x = f(_arg1, b)` when the first
+    positional argument of the assigned call is itself a call and `f` is a
+    plain name / attribute chain (looking it up has no effect)."""
+
+    def rewrite(self, st, fn):
+        if isinstance(st, (ast.Assign, ast.Return)) and isinstance(
+                st.value, ast.Call) and st.value.args and isinstance(
+                st.value.args[0], ast.Call):
+            f = st.value.func
+            while isinstance(f, ast.Attribute):
+                f = f.value
+            if isinstance(f, ast.Name):
+                self.n += 1
+                t = self.fresh("arg")
+                inner = st.value.args[0]
+                st.value.args[0] = ast.Name(id=t, ctx=ast.Load())
+                return [ast.copy_location(ast.Assign(
+                    targets=[ast.Name(id=t, ctx=ast.Store())], value=inner),
+                    st), st]
+        return [st]
+
+
+class CompLoop(_StmtRewriter):
+    """`xs = [E for v in IT]` -> `xs = []; for v in IT: xs.append(E)` for a
+    single-generator list comprehension without conditions whose loop
+    variables occur nowhere else in the function."""
+
+    def rewrite(self, st, fn):
+        if isinstance(st, ast.Assign) and len(st.targets) == 1 \
+                and isinstance(st.targets[0], ast.Name) \
+                and isinstance(st.value, ast.ListComp) \
+                and len(st.value.generators) == 1 \
+                and not st.value.generators[0].ifs \
+                and not st.value.generators[0].is_async:
+            g = st.value.generators[0]
+            lv = {x.id for x in ast.walk(g.target)
+                  if isinstance(x, ast.Name)}
+            inside = {id(x) for x in ast.walk(st)}
+            clash = any(isinstance(x, ast.Name) and x.id in lv
+                        and id(x) not in inside for x in ast.walk(fn))
+            tgt = st.targets[0].id
+            uses_tgt = any(isinstance(x, ast.Name) and x.id == tgt
+                           for x in ast.walk(st.value))
+            if not clash and not uses_tgt and tgt not in lv:
+                self.n += 1
+                init = ast.copy_location(ast.Assign(
+                    targets=[ast.Name(id=tgt, ctx=ast.Store())],
+                    value=ast.List(elts=[], ctx=ast.Load())), st)
+                loop = ast.copy_location(ast.For(
+                    target=g.target, iter=g.iter, body=[ast.Expr(
+                        value=ast.Call(func=ast.Attribute(
+                            value=ast.Name(id=tgt, ctx=ast.Load()),
+                            attr="append", ctx=ast.Load()),
+                            args=[st.value.elt], keywords=[]))],
+                    orelse=[]), st)
+                return [init, loop]
+        return [st]
+
+
 class KwReverse(ast.NodeTransformer):
     def __init__(self):
         self.n = 0
@@ -233,7 +330,7 @@ class KwReverse(ast.NodeTransformer):
 
 MODES = {"rettemp": RetTemp, "ifinvert": IfInvert, "eqswap": EqSwap,
          "kwreverse": KwReverse, "cmpswap": CmpSwap, "npfunc": NpFunc,
-         "lastkw": LastKw}
+         "lastkw": LastKw, "argtemp": ArgTemp, "comploop": CompLoop}
 
 
 def main(mode, root_in, root_out):
